@@ -5,6 +5,8 @@ Never applies ==, in, hasattr or getattr(default) to library objects for bookkee
 """
 from __future__ import annotations
 
+import re
+
 from . import lib
 from .lang import InjectedError, InjectedFault
 
@@ -82,6 +84,9 @@ def kind_of(L, o) -> str:
     return "other"
 
 
+_ADDR = re.compile(r"0x[0-9a-fA-F]+")
+
+
 def observe(o, ctx_names=None, inprocess=True, light=False) -> dict:
     """Return {label: value}.  `inprocess` adds hash/eq entries (never compared across processes)."""
     L = lib.get()
@@ -118,9 +123,19 @@ def observe(o, ctx_names=None, inprocess=True, light=False) -> dict:
             return [sql, _norm_value(L, p.values), vals is p.values]
         out["par_own"] = _try(own)
 
+        def par_default():
+            sql, vals = o.get_parameterized_sql()  # the builder's own dialect context
+            return [sql, _norm_value(L, vals)]
+        out["par_default"] = _try(par_default)
+        # is_joined() is a read: it answers from the join list and must leave it alone
+        out["is_joined"] = _try(lambda: [[n, bool(o.is_joined(p))] for n, p in _panel(L) if n.startswith("T")])
+
     cls = type(o)
     if cls.__str__ is not object.__str__:
         out["str"] = _try(lambda: str(o))
+    if "__repr__" in vars(cls) or any("__repr__" in vars(c) for c in cls.__mro__[1:-1]):
+        # Table.__repr__ formats its Schema with the default object repr: mask the address
+        out["repr"] = _try(lambda: _ADDR.sub("0x?", repr(o)))
     d = lib.state(o)
     if isinstance(d, dict) and "alias" in d:
         a = d["alias"]
